@@ -63,7 +63,14 @@ def child_env():
     return env
 
 
+_CHILDREN = [0]
+
+
 def child_cmd(spec, scratch):
+    # every second loader process runs inside an application that has switched INFO (every fourth: DEBUG) logging on
+    _CHILDREN[0] += 1
+    if "logging" not in spec and _CHILDREN[0] % 2 == 0:
+        spec = dict(spec, logging="DEBUG" if _CHILDREN[0] % 4 == 0 else "INFO")
     fd, path = tempfile.mkstemp(prefix="spec-", suffix=".json", dir=scratch)
     with os.fdopen(fd, "w") as f:
         json.dump(spec, f)
